@@ -312,6 +312,48 @@ def g6_g7(repo, res):
                         "the resolved show()/default values stay on the object", t1["bad"][0][2].lineno))
 
 
+def g9(repo, res):
+    """G5b: on the style-resolution path values are filtered by `is None` / `is not None`, never by truthiness (False and 0 are
+    legitimate settings);  REC-FWD: show() style keywords are forwarded through the recursion over collection children;
+    G4b: the style setter never adopts the caller's style object."""
+    sm = repo.mod("magpylib._src.style")
+    fn = sm.funcs["get_style"]
+    value_names = set()
+    for n in ast.walk(fn):
+        if isinstance(n, ast.comprehension) and isinstance(n.target, ast.Tuple) and len(n.target.elts) == 2 and ".items()" in ast.unparse(n.iter):
+            if isinstance(n.target.elts[1], ast.Name):
+                value_names.add((id(n), n.target.elts[1].id))
+    n_f = 0
+    for n in ast.walk(fn):
+        if isinstance(n, ast.comprehension):
+            vals = {nm for (i, nm) in value_names if i == id(n)}
+            for t in n.ifs:
+                n_f += 1
+                truthy = (isinstance(t, ast.Name) and t.id in vals) or (isinstance(t, ast.UnaryOp) and isinstance(t.op, ast.Not) and
+                                                                         isinstance(t.operand, ast.Name) and t.operand.id in vals)
+                res.ob(f"G5b:{norm(t)}", not truthy, {"rule": "G5b", "filter": norm(t)}, nontrivial=False)
+                if truthy:
+                    res.add(Finding("G5b", sm.rel, "get_style", t, "style values are filtered by truthiness: a default of False or 0 is treated as unset "
+                                    "and loses to a less specific default", t.lineno))
+    import rules_recfwd
+    nrec = rules_recfwd.recursive_forwarding(repo, res, "REC-FWD", lambda name: name.startswith("magpylib._src.display") or
+                                             name.startswith("magpylib._src.defaults") or name == "magpylib._src.style" or
+                                             name == "magpylib._src.obj_classes.class_Collection")
+    res.analysed["recursive_calls_checked"] = nrec
+    res.require(nrec >= 5, f"REC-FWD: only {nrec} recursive calls found")
+    # G4b
+    import origin_rules
+    from origin_rules import O, org_of, run_node, find_ast
+    G = "magpylib._src.obj_classes.class_BaseGeo"
+    node = find_ast(G, "BaseGeo._validate_style")
+    out, dom, it = run_node(G, node, dict(self=O({"A:self"}), val=O({"P:val"})), name="BaseGeo._validate_style")
+    leak = sorted(o for o in org_of(out) if o.startswith("P:"))
+    res.ob("G4b:_validate_style never returns the caller's object", not leak, {"rule": "G4b", "returns": repr(out)})
+    if leak:
+        res.add(Finding("G4b", "magpylib/_src/obj_classes/class_BaseGeo.py", "BaseGeo._validate_style", f"returns {leak}",
+                        "assigning another object's style would make both objects share one style instance (later edits leak)"))
+
+
 def g8(repo, res):
     """invalid style names are rejected by *exact* membership of the level-0 key in the set of valid keys (set difference / `in`),
     not by prefix/substring matching - otherwise misspelt names that merely start like a valid one are accepted silently"""
@@ -332,7 +374,7 @@ def g8(repo, res):
 
 
 def run(repo, res, tier):
-    res.rules = ["G1 reset/DEFAULTS vs property tree", "G2 alias-free properties", "G3 leaf setters validate", "G4 no caller dict mutated/captured", "G5 precedence dataflow in get_style", "G6 no memoisation on the style path", "G7 temporary style removed on all exits", "G8 exact validation of style names"]
+    res.rules = ["G1 reset/DEFAULTS vs property tree", "G2 alias-free properties", "G3 leaf setters validate", "G4 no caller dict mutated/captured", "G5 precedence dataflow in get_style", "G6 no memoisation on the style path", "G7 temporary style removed on all exits", "G8 exact validation of style names", "G5b None-filters not truthiness", "REC-FWD style keywords forwarded through recursion", "G4b style setter adopts no foreign style object"]
     g1(repo, res)
     g2_g3(repo, res)
     import origin_rules
@@ -340,6 +382,7 @@ def run(repo, res, tier):
     g5(repo, res)
     g6_g7(repo, res)
     g8(repo, res)
+    g9(repo, res)
     res.assumptions += ["property tree links are the validate_property_class(val, name, Class, self) calls in the setters",
                         "NumPy/stdlib copy-view table of origdom.py (dict.copy / dict display / {**d} are copies one level deep)"]
     return {}
